@@ -577,6 +577,19 @@ func c08CLICases(inj []c08Inj, thorough bool) []c08CLICase {
 		}
 		out = append(out, c08CLICase{Tool: "bkl", Files: files, Args: []string{fmt.Sprintf("f%d.yaml", g.Entry)}})
 	}
+	// empty, blank and comment-only inputs (zero or one empty document, depending on the format)
+	for _, content := range []string{"", " ", "\n", "\n\n", "# c\n", "---\n", "---\n---\n", "null\n", "[]\n", "{}\n", "{} {}\n", "1\n"} {
+		for _, ext := range []string{"json", "yaml", "toml", "jsonl", "yml"} {
+			in := "in." + ext
+			out = append(out, c08CLICase{Tool: "bkl", Files: map[string]string{in: content}, Args: []string{in}})
+			out = append(out, c08CLICase{Tool: "bklr", Files: map[string]string{in: content}, Args: []string{in}})
+			out = append(out, c08CLICase{Tool: "bkld", Files: map[string]string{in: content, "t.yaml": "a: 1\n"}, Args: []string{in, "t.yaml"}})
+			out = append(out, c08CLICase{Tool: "bkld", Files: map[string]string{in: content, "t.yaml": "a: 1\n"}, Args: []string{"t.yaml", in}})
+			out = append(out, c08CLICase{Tool: "bkli", Files: map[string]string{in: content, "t.yaml": "a: 1\n"}, Args: []string{in, "t.yaml"}})
+			out = append(out, c08CLICase{Tool: "bkli", Files: map[string]string{in: content, "t.yaml": "a: 1\n"}, Args: []string{"t.yaml", in}})
+			out = append(out, c08CLICase{Tool: "bkl", Files: map[string]string{in: content, "in.x." + ext: "a: 1\n"}, Args: []string{"in.x." + ext}})
+		}
+	}
 	// malformed command lines
 	for _, a := range [][]string{{}, {"-f", "nope", "in.json"}, {"missing.json"}, {"in.ini"}, {"-o", "/nonexistent-dir/x.json", "in.json"}, {"--bogus"}, {"in.json", "missing.yaml"}} {
 		for _, t := range []string{"bkl", "bkld", "bkli", "bklr"} {
